@@ -1,7 +1,9 @@
+import Whv.Driver.Vaa
 /-! Driver dispatch: `whvdriver <family>` reads case lines on stdin, prints verdict lines. -/
 namespace Whv.Driver
 
-def families : List (String × (IO.FS.Stream → IO Unit)) := []
+def families : List (String × (IO.FS.Stream → IO Unit)) :=
+  [("vaa", Whv.Driver.VaaFam.run)]
 
 def main (args : List String) : IO UInt32 := do
   match args with
